@@ -25,6 +25,8 @@ import (
 	"net"
 	"strconv"
 	"strings"
+	"sync"
+	"sync/atomic"
 	"time"
 
 	"github.com/mgtv-tech/redis-GunYu/config"
@@ -169,6 +171,102 @@ func init() {
 			return append(vfc18KeysN(r, k, n), []byte("0")), vfc18Seq(0, n)
 		}},
 	)
+	vfc18Tmpls = append(vfc18Tmpls, vfc18MovableTmpls...)
+}
+
+// Session 5 — the forms of Redis 7's `movablekeys` write commands in which the keys MOVE with option words, written
+// from Redis's own getkeys procs (src/db.c sortGetKeys, georadiusGetKeys, zunionInterDiffStoreGetKeys, evalGetKeys,
+// functionGetKeys, lmpopGetKeys / blmpopGetKeys / zmpopGetKeys / bzmpopGetKeys): what a cluster node checks a queued
+// command by. Each names a form the 81 earlier shapes do not have: option words before / between the keys, an option
+// given twice (Redis: the LAST one counts), an argument that spells an option word where Redis does not look for one.
+var vfc18MovableTmpls = []vfc18Tmpl{
+	// GEORADIUS key lon lat radius unit [COUNT n] [ASC|DESC] (STORE|STOREDIST dst)+ : georadiusGetKeys scans from the first
+	// option (argv 5) on, a store option consumes its argument, the LAST one names the destination (C18-F1, repaired 975110c)
+	{"georadius", func(r *vfutil.Rand, k func() []byte) ([][]byte, []int) {
+		a := [][]byte{k(), []byte("1"), []byte("2"), []byte("3"), []byte("km")}
+		if r.Bool() {
+			a = append(a, []byte("COUNT"), []byte("5"))
+		}
+		if r.Bool() {
+			a = append(a, []byte(vfutil.Pick(r, []string{"ASC", "DESC"})))
+		}
+		last := -1
+		for i, n := 0, r.Range(1, 2); i < n; i++ {
+			a = append(a, []byte(vfutil.Pick(r, []string{"STORE", "store", "STOREDIST", "StoreDist"})), k())
+			last = len(a) - 1
+		}
+		return a, []int{0, last}
+	}},
+	// GEORADIUSBYMEMBER key member radius unit … STORE dst, the MEMBER possibly spelling an option word (argv 2: not scanned by Redis)
+	{"georadiusbymember", func(r *vfutil.Rand, k func() []byte) ([][]byte, []int) {
+		member := []byte(vfutil.Pick(r, []string{"store", "STOREDIST", "m1", "Store"}))
+		a := [][]byte{k(), member, []byte("3"), []byte("km")}
+		if r.Bool() {
+			a = append(a, []byte("WITHCOORD"))
+		}
+		a = append(a, []byte(vfutil.Pick(r, []string{"STORE", "STOREDIST"})), k())
+		return a, []int{0, len(a) - 1}
+	}},
+	// SORT key [BY nosort] [LIMIT o c] [GET #] [ASC|DESC|ALPHA] (STORE dst)+ : sortGetKeys keeps the LAST store
+	{"sort", func(r *vfutil.Rand, k func() []byte) ([][]byte, []int) {
+		a := [][]byte{k()}
+		if r.Bool() {
+			a = append(a, []byte("BY"), []byte("nosort"))
+		}
+		if r.Bool() {
+			a = append(a, []byte("LIMIT"), []byte("0"), []byte("10"))
+		}
+		if r.Bool() {
+			a = append(a, []byte("GET"), []byte("#"))
+		}
+		if r.Bool() {
+			a = append(a, []byte(vfutil.Pick(r, []string{"DESC", "ALPHA"})))
+		}
+		last := -1
+		for i, n := 0, r.Range(1, 2); i < n; i++ {
+			a = append(a, []byte(vfutil.Pick(r, []string{"STORE", "store"})), k())
+			last = len(a) - 1
+		}
+		return a, []int{0, last}
+	}},
+	// Z*STORE dst numkeys key… [WEIGHTS w…] [AGGREGATE x]: a weight / aggregate word that looks like a key is none
+	{"zinterstore", func(r *vfutil.Rand, k func() []byte) ([][]byte, []int) {
+		n := r.Range(1, 3)
+		a := [][]byte{k(), []byte(strconv.Itoa(n))}
+		idx := append([]int{0}, vfc18Seq(2, n)...)
+		a = append(a, vfc18KeysN(r, k, n)...)
+		if r.Bool() {
+			a = append(a, []byte("WEIGHTS"))
+			for i := 0; i < n; i++ {
+				a = append(a, []byte(strconv.Itoa(r.Range(1, 9))))
+			}
+		}
+		if r.Bool() {
+			a = append(a, []byte("AGGREGATE"), []byte(vfutil.Pick(r, []string{"SUM", "MIN", "MAX"})))
+		}
+		return a, idx
+	}},
+	// EVAL script numkeys key… arg…, the script text and the arguments spelling keys
+	{"eval", func(r *vfutil.Rand, k func() []byte) ([][]byte, []int) {
+		n := r.Range(1, 3)
+		a := [][]byte{k(), []byte(strconv.Itoa(n))}
+		idx := vfc18Seq(2, n)
+		a = append(a, vfc18KeysN(r, k, n)...)
+		a = append(a, vfc18KeysN(r, k, r.Range(0, 2))...)
+		return a, idx
+	}},
+	// LMPOP numkeys key… LEFT|RIGHT [COUNT n]
+	{"lmpop", func(r *vfutil.Rand, k func() []byte) ([][]byte, []int) {
+		n := r.Range(1, 3)
+		a := [][]byte{[]byte(strconv.Itoa(n))}
+		idx := vfc18Seq(1, n)
+		a = append(a, vfc18KeysN(r, k, n)...)
+		a = append(a, []byte(vfutil.Pick(r, []string{"LEFT", "RIGHT"})))
+		if r.Bool() {
+			a = append(a, []byte("COUNT"), []byte("2"))
+		}
+		return a, idx
+	}},
 }
 
 // ------------------------------------------------------------ the real loop against the node doubles
@@ -176,7 +274,19 @@ func init() {
 // builder-side COMMAND GETKEYS double (IterateNodes), independent of the client's
 type vfc18LoopRedis struct {
 	vfc18Redis
-	fbB string
+	fbB       string
+	onClose   func()
+	closeOnce sync.Once
+}
+
+// Close is reported once per connection: a run has ended — no lane worker, receiver or parser of it can send anything
+// any more — when every connection it opened has been closed (the loops close a connection only after the goroutines
+// using it have exited; a worker closes its own when it exits)
+func (r *vfc18LoopRedis) Close() error {
+	if r.onClose != nil {
+		r.closeOnce.Do(r.onClose)
+	}
+	return nil
 }
 
 func (r *vfc18LoopRedis) IterateNodes(result func(string, interface{}, error), cmd string, args ...interface{}) {
@@ -350,6 +460,7 @@ func (w *vfc18World) loopCase(r *vfutil.Rand, mode config.ReplayMode, fbB, fbC s
 		}
 		ro := NewRedisOutput(RedisOutputConfig{InputName: "in-1", CheckpointName: w.cp, BisyncEnabled: true, BatchCmdCount: 8,
 			Redis: config.RedisConfig{Type: config.RedisTypeCluster}, ReplayMode: mode, Parallelism: 2, TargetDb: -1})
+		var opened, closed atomic.Int64
 		ro.newRedisConn = func(ctx context.Context) (client.Redis, error) {
 			if fbB == "connfail" && ctx.Done() == nil {
 				// the parser's key resolver opens its introspection connection with context.Background()
@@ -357,7 +468,8 @@ func (w *vfc18World) loopCase(r *vfutil.Rand, mode config.ReplayMode, fbB, fbC s
 				s.Count("loop_introspection_conn_refused")
 				return nil, errors.New("injected: introspection connection refused")
 			}
-			return &vfc18LoopRedis{vfc18Redis: vfc18Redis{c: cl}, fbB: fbB}, nil
+			opened.Add(1)
+			return &vfc18LoopRedis{vfc18Redis: vfc18Redis{c: cl}, fbB: fbB, onClose: func() { closed.Add(1) }}, nil
 		}
 		_, _, late := w.nodes.takeRun(runID)
 		for i := 0; i < late; i++ {
@@ -386,7 +498,24 @@ func (w *vfc18World) loopCase(r *vfutil.Rand, mode config.ReplayMode, fbB, fbC s
 				err, stalled = vfc18LoopRun(ro, w.nodes, runID, vfc18EncodeTxns(txns[1:]), good(len(txns)), hard)
 			}
 		}
-		w.nodes.settle() // lane workers of a loop that returned on an error may still be sending (adds evidence only)
+		// the run is over when every connection it opened is closed: then every block it can send HAS been recorded by a
+		// node (a node records a block before it answers EXEC, a worker reads that answer before it exits, the loop closes
+		// a connection after the goroutines using it have exited). An explicit condition, not a quiet window: whatever a slow
+		// lane sends is waited for and judged with this case (sent-after-refusal included).
+		joined := false
+		for limit := time.Now().Add(hard); time.Now().Before(limit); time.Sleep(time.Millisecond) {
+			if closed.Load() >= opened.Load() {
+				joined = true
+				break
+			}
+		}
+		if joined {
+			s.Count("loop_run_joined_all_connections_closed")
+		} else {
+			// a goroutine of the run still holds a connection: fall back to the quiet window (evidence only) and say so
+			s.Count("loop_run_not_joined")
+			w.nodes.settle()
+		}
 		blocks, stray, late = w.nodes.takeRun(runID)
 		for i := 0; i < late; i++ {
 			s.Count("loop_late_blocks_of_earlier_case")
